@@ -740,6 +740,20 @@ pub fn serve_tcp(state: SharedIrr, stop: Arc<std::sync::atomic::AtomicBool>) -> 
             let mut buf = [0u8; 4096];
             'conn: loop {
                 if stop.load(Ordering::Relaxed) {
+                    // the client is gone: whatever it had still written is in the socket buffer; record those
+                    // queries too, so that the list of queries does not depend on when the stop came
+                    let _ = sock.set_nonblocking(true);
+                    while let Ok(n) = sock.read(&mut buf) {
+                        if n == 0 {
+                            break;
+                        }
+                        inbuf.extend_from_slice(&buf[..n]);
+                    }
+                    while let Some(p) = inbuf.iter().position(|b| *b == b'\n') {
+                        let line: Vec<u8> = inbuf.drain(..=p).collect();
+                        let line = String::from_utf8_lossy(&line[..line.len() - 1]).into_owned();
+                        let _ = state.lock().unwrap().answer(line.trim_end_matches('\r'));
+                    }
                     break;
                 }
                 let n = match sock.read(&mut buf) {
